@@ -11,9 +11,19 @@ import json, os, subprocess, sys, time
 ROOT = os.path.dirname(os.path.abspath(__file__))
 SD = os.path.join(ROOT, "seeded")
 ids = sys.argv[1:] or sorted(d for d in os.listdir(SD) if os.path.isdir(os.path.join(SD, d)))
+# one result file per seeded change (seeded/<id>/result.json): concurrent runs cannot clobber each other;
+# seeded/RESULTS.json is only an aggregate, rebuilt at the end of every run from those files
 results = {}
 rp = os.path.join(SD, "RESULTS.json")
-if os.path.exists(rp): results = json.load(open(rp))
+def save_one(sid, res):
+    json.dump(res, open(os.path.join(SD, sid, "result.json"), "w"), indent=1, sort_keys=True)
+def aggregate():
+    agg = {}
+    for d in sorted(os.listdir(SD)):
+        f = os.path.join(SD, d, "result.json")
+        if os.path.exists(f): agg[d] = json.load(open(f))
+    json.dump(agg, open(rp, "w"), indent=1, sort_keys=True)
+    return agg
 for sid in ids:
     d = os.path.join(SD, sid)
     meta = json.load(open(os.path.join(d, "meta.json")))
@@ -24,6 +34,7 @@ for sid in ids:
         ap = subprocess.run(["git", "-C", wt, "apply", "--3way", os.path.join(d, "patch.diff")], capture_output=True, text=True)
         if ap.returncode != 0:
             results[sid] = {"property": meta["property"], "applied": False, "detail": ap.stderr[-300:]}
+            save_one(sid, results[sid])
             print(f"{sid}: patch does not apply: {ap.stderr[-200:]}"); continue
         res = {"property": meta["property"], "applied": True, "checks": {}}
         for pid in [meta["property"]] + meta.get("also", []):
@@ -35,9 +46,10 @@ for sid in ids:
             res["checks"][pid] = {"exit": p.returncode, "violation": vio[0] if vio else None, "wall_s": round(time.time() - t0, 1)}
             print(f"{sid} [{pid}]: exit={p.returncode} {vio[0] if vio else 'no violation reported'}", flush=True)
         results[sid] = res
+        save_one(sid, res)
     finally:
         subprocess.run(["git", "-C", "/repo", "worktree", "remove", "--force", wt], capture_output=True)
         subprocess.run(["rm", "-rf", os.path.join(ROOT, "work", "alt", "tmp_seedrun_" + sid.replace("-", "_"))])
-    json.dump(results, open(rp, "w"), indent=1, sort_keys=True)
+results = aggregate()
 caught = sum(1 for r in results.values() if r.get("applied") and any(c["exit"] == 1 and c["violation"] for c in r["checks"].values()))
 print(f"caught {caught}/{len(results)}")
